@@ -134,9 +134,9 @@ type rpcEnv struct {
 	pending  []pendingReq
 	sentCont map[int64]bool // msg_ids of content-related messages the server sent (alone or in containers)
 	acked    map[int64]bool
-	ackCount map[int64]int // how many times each server msg_id was named in a msgs_ack
-	arrivals map[uint64]int // uid -> times it arrived at the server
-	onReq    func(e *rpcEnv, p pendingReq, in *mtp.Inner) bool // true: handled (do not queue)
+	ackCount map[int64]int                                           // how many times each server msg_id was named in a msgs_ack
+	arrivals map[uint64]int                                          // uid -> times it arrived at the server
+	onReq    func(e *rpcEnv, p pendingReq, in *mtp.Inner) bool       // true: handled (do not queue)
 	onAny    func(e *rpcEnv, cn *refserver.Conn, in *mtp.Inner) bool // sees every message first; true: consumed
 	newReq   chan struct{}
 }
@@ -145,6 +145,8 @@ type envOpts struct {
 	Fresh   bool // do a key exchange instead of resuming
 	Handler func(e *rpcEnv, p pendingReq, in *mtp.Inner) bool
 	Any     func(e *rpcEnv, cn *refserver.Conn, in *mtp.Inner) bool
+	// NoWarnings: the application did not ask for warnings (MTProto.Warnings stays nil)
+	NoWarnings bool
 }
 
 func newRPCEnv(c *wk.Ctx, idx int, r *rand.Rand, o envOpts) (*rpcEnv, error) {
@@ -172,6 +174,11 @@ func newRPCEnv(c *wk.Ctx, idx int, r *rand.Rand, o envOpts) (*rpcEnv, error) {
 	m, err := e.w.client(e.srv.Addr, e.sess, e.srv)
 	if err != nil {
 		return nil, err
+	}
+	if o.NoWarnings {
+		ch := m.Warnings
+		m.Warnings = nil
+		close(ch) // ends the drain goroutine
 	}
 	e.m = m
 	e.tc = &telegram.Client{MTProto: m}
